@@ -121,8 +121,16 @@ class Known:
         for path in paths:
             if not os.path.exists(path):
                 continue
-            with open(path) as f:
-                data = json.load(f)
+            data = None
+            for attempt in range(5):  # another process may be rewriting the file
+                try:
+                    with open(path) as f:
+                        data = json.load(f)
+                    break
+                except ValueError:
+                    time.sleep(0.2)
+            if data is None:
+                raise ValueError('unreadable known-findings file %s' % path)
             for fd in data.get('findings', []):
                 if prop not in fd.get('properties', [fd.get('property')]):
                     continue
@@ -418,7 +426,7 @@ def run_property(modname, tier, seed_value):
             'exhaustive_parts': exhaustive,
             'per_part_evaluations': per_part,
             'per_part_wall_s': per_part_wall,
-            'labels': dict(total.labels.most_common(60)),
+            'labels': dict(total.labels.most_common(120)),
             'known_finding_hits': dict(total.known_hits),
             'known_findings_open': [fd['id'] for fd in still_open],
             'budget_exhausted': budget_exhausted,
